@@ -530,7 +530,7 @@ class RelativeJSONPointer:
             index = 0
 
         # Pointer or '#'. Empty string is OK.
-        _pointer = match.group("POINTER").strip()
+        _pointer = match.group("POINTER").lstrip()
         pointer = (
             JSONPointer(
                 _pointer,
